@@ -208,6 +208,7 @@ class Run(object):
             def on_connect(self, ep):
                 run.poll()
                 run.ctl = ep
+                ep.eager_eof = bool(run.sc.get('eager_eof'))
                 run.seen_ctl = 0
                 run.partial = None
                 run.cmdbuf = b''
